@@ -56,6 +56,25 @@ static Verdict evaluate(const LifeCase &c, const c11_out &o) {
     PBT_REQUIRE(o.res.unjoined_threads == 0, "failed tp_create left threads");
     PBT_REQUIRE(o.res.double_free == 0 && o.res.close_unknown == 0, "failed tp_create freed/closed something twice (double_free=" << o.res.double_free
                                                                                                                                  << " close_unknown=" << o.res.close_unknown << ")");
+    {
+      // hooks exactly once per thread, also on this path: whatever start hook ran before the failure (the virtual
+      // thread's runs inside tp_create) must have been balanced by its stop hook when tp_create returned
+      std::map<uint64_t, int> st, sp;
+      for (uint32_t i = 0; i < n; i++) {
+        const tp_rec &r = tp_log_buf[i];
+        if (r.kind == R_HOOK_START) st[r.a]++;
+        if (r.kind == R_HOOK_STOP) sp[r.a]++;
+      }
+      for (auto &kv : st) {
+        PBT_REQUIRE(kv.second == 1, "failed tp_create ran the start hook " << kv.second << " times for one thread");
+        PBT_REQUIRE(sp[kv.first] == 1, "failed tp_create ran the start hook of thread object " << std::hex << kv.first << std::dec << " but its stop hook " << sp[kv.first]
+                                                                                                 << " times (thread-local user state set up by the start hook is never torn down)");
+      }
+      // (a stop hook without a start hook -- the virtual thread's own setup failed -- is not asserted either way: the property
+      // speaks about what is left behind, and nothing is)
+      for (auto &kv : sp) if (!st.count(kv.first)) label("create_failed_stop_hook_without_start");
+      if (!st.empty()) label("create_failed_after_start_hook");
+    }
     label("create_failed_cleanly");
     nontrivial_cur();
     return Verdict::pass();
